@@ -185,12 +185,45 @@ def check_design(ctx: Ctx, d: dict, r: dict, exprs: list, meta: list):
             meta.append((d, t, e['raw']))
 
 
+def one_base_constant_regions(rng, d: dict) -> None:
+    """Cut a targeton so that its constant regions are exactly one base long, and put records on those two bases: a substitution on the
+    base, an insertion and a deletion anchored on the base before it (reported on it)."""
+    U = d['ref'].upper()
+    t = rng.choice(d['targetons'])
+    lo, hi = t['r2_start'] - t['ext'][0] - 1, t['r2_end'] + t['ext'][1] + 1
+    if lo < 3 or hi > len(U) - 3 or any(x is not t and (x['ref_start'], x['ref_end']) == (lo, hi) for x in d['targetons']):
+        return
+    t['ref_start'], t['ref_end'] = lo, hi
+    if not d.get('vcfs'):
+        return
+    recs = d['vcfs'][0]['records']
+    other = lambda c: rng.choice([x for x in 'ACGT' if x != c])
+    for p in (lo, hi):
+        k = rng.choice(['snv', 'ins', 'del'])
+        if k == 'snv':
+            rec = {'pos': p, 'ref': U[p - 1], 'alts': [other(U[p - 1])]}
+        elif k == 'ins':
+            rec = {'pos': p - 1, 'ref': U[p - 2], 'alts': [U[p - 2] + gen.rand_dna(rng, rng.randint(1, 3))]}
+        else:
+            if p != lo:
+                continue          # a deletion of the last base only
+            rec = {'pos': p - 1, 'ref': U[p - 2:p], 'alts': [U[p - 2]]}
+        rec.update(id=f'edge{p}', kind=k)
+        if d['vcfs'][0].get('id_tag'):
+            rec['info'] = {d['vcfs'][0]['id_tag']: str(5000 + p)}
+        recs.append(rec)
+    recs.sort(key=lambda r: (r.get('contig', d['contig']) != d['contig'], r['pos']))
+
+
 def files(ctx: Ctx):
     n = ctx.n(120, 1500)
     focus = {'p_bg': 0.0, 'p_custom': 1.0, 'p_pam': 0.3, 'allow_junction_pam': False,
              'custom_kinds': ['snv', 'mnv', 'ins', 'ins', 'del', 'del', 'delins_u', 'delins_a', 'padded', 'mono', 'multi'],
              'n_custom': [1, 2, 3, 5, 8], 'p_lower': 0.25}
     designs = [gen.gen_sge(ctx.rng, focus) for _ in range(n)]
+    for i, d in enumerate(designs):
+        if i % 4 == 2:
+            one_base_constant_regions(ctx.rng, d)
     exprs, meta = [], []
     for d, r in pool_map(design_case, designs):
         check_design(ctx, d, r, exprs, meta)
